@@ -83,14 +83,32 @@ package bytecode
 //@   requires[operand-count] has(definitions, op) ==> len(operands) == len(definitions[op].OperandWidths)
 //@   requires[operand-fits] forall(i, int, 0 <= i && i < len(operands) ==> 0 <= operands[i] && operands[i] < 65536)
 //@   ensures[C17 unknown-opcode] (err == nil) <==> has(definitions, op)
+//@   ensures[C17 appended] err == nil ==> len(c.instructions) == old(len(c.instructions)) + 1 + 2 * len(operands)
 //@   modifies c.instructions, class elem:byte
+
+// changeOperand patches the two operand bytes of the instruction at opPosition: the instruction must lie inside the
+// program and the new operand must fit its two bytes.
+//@ func (ins Instructions) changeOperand(opPosition int, operand int) ()
+//@   props C17
+//@   requires[patch-inside-program] 0 <= opPosition && opPosition + 3 <= len(ins)
+//@   requires[operand-fits] 0 <= operand && operand < 65536
+//@   ensures[C17 operand-patched] int(ins[opPosition+1]) * 256 + int(ins[opPosition+2]) == operand
+//@   modifies ins[opPosition+1], ins[opPosition+2]
+
+// A node that is not a statement which may record or hand back a pending break (assumed of the parser: loop and
+// if conditions are expressions).
+//@ pure exprNode(n parser.Node) bool = !is(n, *parser.BreakStmt) && !is(n, *parser.BlockStatement) && !is(n, *parser.IfStmt) && !is(n, *parser.WhileStmt) && !is(n, *parser.ForStmt) && !is(n, *parser.Program)
 
 // Compile: only the emission sites of Compile itself are checked here (the compile* helpers are not under contract).
 //@ func (c *Compiler) Compile(node parser.Node) (err error)
 //@   props C17
 //@   requires node != nil && ref(node) != 0
 //@   requires[assumed-wf-literals] forall(a, *parser.ArrayLiteral, forall(i, int, 0 <= i && i < len(a.Elements) ==> a.Elements[i] != nil && ref(a.Elements[i]) != 0)) && forall(m, *parser.MapLiteral, forall(k, string, has(m.Pairs, k) ==> m.Pairs[k] != nil && ref(m.Pairs[k]) != 0) && forall(i, int, 0 <= i && i < len(m.Order) ==> has(m.Pairs, m.Order[i]))) && forall(g, *parser.GroupExpression, g.Expr != nil && ref(g.Expr) != 0)
+//@   requires[assumed-wf-conditions] forall(w, *parser.WhileStmt, w.Condition != nil && ref(w.Condition) != 0 && exprNode(w.Condition) && w.Block != nil) && forall(b, *parser.ConditionalBlock, b.Condition != nil && ref(b.Condition) != 0 && exprNode(b.Condition) && b.Block != nil)
+//@   ensures[C17 assumed-expressions-leave-breaks] err == nil && exprNode(node) ==> base(c.breaks) == old(base(c.breaks)) && len(c.breaks) == old(len(c.breaks))
 //@   ensures[C17 no-node-compiled-to-nothing] err == nil ==> is(node, *parser.Program) || is(node, *parser.IndexExpression) || is(node, *parser.InferredDeclStmt) || is(node, *parser.AssignmentStmt) || is(node, *parser.BinaryExpression) || is(node, *parser.BreakStmt) || is(node, *parser.BlockStatement) || is(node, *parser.ForStmt) || is(node, *parser.IfStmt) || is(node, *parser.WhileStmt) || is(node, *parser.SliceExpression) || is(node, *parser.UnaryExpression) || is(node, *parser.GroupExpression) || is(node, *parser.Var) || is(node, *parser.NumLiteral) || is(node, *parser.BoolLiteral) || is(node, *parser.StringLiteral) || is(node, *parser.ArrayLiteral) || is(node, *parser.MapLiteral) || is(node, *parser.EmptyStmt)
+//@   ensures[C17 assumed-code-only-grows] err == nil ==> len(c.instructions) >= old(len(c.instructions))
+//@   ensures[C17 assumed-breaks-inside-program] err == nil ==> forall(i, int, 0 <= i && i < len(c.breaks) ==> 0 <= c.breaks[i] && c.breaks[i] + 3 <= len(c.instructions))
 //@   modifies allbut compileFrame
 //@   loop 1 modifies allbut compileFrame
 //@   loop 2 modifies allbut compileFrame
@@ -106,12 +124,6 @@ package bytecode
 //@   noverify not under contract
 //@   modifies allbut compileFrame
 //@ func (c *Compiler) compileIfStatement(stmt *parser.IfStmt) (err error)
-//@   noverify not under contract
-//@   modifies allbut compileFrame
-//@ func (c *Compiler) compileWhileStatement(stmt *parser.WhileStmt) (err error)
-//@   noverify not under contract
-//@   modifies allbut compileFrame
-//@ func (c *Compiler) compileBreakStatement(_ *parser.BreakStmt) (err error)
 //@   noverify not under contract
 //@   modifies allbut compileFrame
 //@ func (c *Compiler) compileSliceExpression(expr *parser.SliceExpression) (err error)
@@ -172,3 +184,30 @@ package bytecode
 //@   ensures[C17 pushed] old(vm.sp) < 2048 ==> err == nil && vm.sp == old(vm.sp) + 1 && vm.stack[old(vm.sp)] == o
 //@   ensures[C17 below-kept] forall(i, int, 0 <= i && i < old(vm.sp) ==> vm.stack[i] == old(vm.stack[i]))
 //@   modifies vm.sp, vm.stack[*]
+
+// ---- C17: jumps are patched inside the program and a loop hands the enclosing loop's pending breaks back ----
+// (Compile's two assumed clauses above - the code only grows, pending break positions lie inside the program - are
+// what the helpers below rely on for the statements they compile recursively; they are proved for the helpers
+// themselves, not for Compile as a whole, whose other helpers are not under contract.)
+
+//@ func (c *Compiler) compileBreakStatement(_ *parser.BreakStmt) (err error)
+//@   props C17
+//@   ensures[C17 break-recorded] err == nil ==> len(c.breaks) == old(len(c.breaks)) + 1 && c.breaks[old(len(c.breaks))] == old(len(c.instructions)) && len(c.instructions) == old(len(c.instructions)) + 3
+//@   modifies c.instructions, c.breaks, class elem:byte, class elem:int
+
+//@ func (c *Compiler) compileConditionalBlock(block *parser.ConditionalBlock) (pos int, err error)
+//@   props C17
+//@   requires block != nil
+//@   requires[assumed-wf-conditions] forall(w, *parser.WhileStmt, w.Condition != nil && ref(w.Condition) != 0 && exprNode(w.Condition) && w.Block != nil) && forall(b, *parser.ConditionalBlock, b.Condition != nil && ref(b.Condition) != 0 && exprNode(b.Condition) && b.Block != nil)
+//@   ensures[C17 jump-position-inside-program] err == nil ==> 0 <= pos && pos + 3 == len(c.instructions) && len(c.instructions) >= old(len(c.instructions))
+//@   modifies allbut compileFrame
+
+//@ func (c *Compiler) compileWhileStatement(stmt *parser.WhileStmt) (err error)
+//@   props C17
+//@   requires stmt != nil
+//@   requires[assumed-wf-conditions] forall(w, *parser.WhileStmt, w.Condition != nil && ref(w.Condition) != 0 && exprNode(w.Condition) && w.Block != nil) && forall(b, *parser.ConditionalBlock, b.Condition != nil && ref(b.Condition) != 0 && exprNode(b.Condition) && b.Block != nil)
+//@   ensures[C17 enclosing-breaks-restored] err == nil ==> base(c.breaks) == old(base(c.breaks)) && len(c.breaks) == old(len(c.breaks))
+//@   ensures[C17 code-only-grows] err == nil ==> len(c.instructions) >= old(len(c.instructions))
+//@   modifies allbut compileFrame
+//@   loop 1 modifies class elem:byte
+//@   loop 1 invariant -1 <= rangeindex && rangeindex < len(c.breaks) && afterBlockPos == len(c.instructions) && len(c.instructions) >= old(len(c.instructions)) && forall(j, int, 0 <= j && j < len(c.breaks) ==> 0 <= c.breaks[j] && c.breaks[j] + 3 <= len(c.instructions))
